@@ -11,7 +11,7 @@ ID = "C06"
 OPT_QUICK_ALL = True      # every partition also in a child interpreter started with -O
 LEVEL = "exploration"
 TECHNIQUE = "deviation-bounded exhaustive enumeration of value dictionaries and of canonical byte strings (independent encoders); both round-trip directions and single-field read-modify-write are compared bit for bit with whole-buffer integer deposit"
-RULE = ("structures with both directions: standard INQUIRY, VPD 80h/83h/86h/B2h/B3h, designators (9 kinds, NAA 2/3/5/6, EUI-64 8/12/16), mode "
+RULE = ("classes derived from Inquiry that override one designator helper (delegating): parse + rebuild of Device Identification pages goes through the override as often as the base class goes through its own; structures with both directions: standard INQUIRY, VPD 80h/83h/86h/B2h/B3h, designators (9 kinds, NAA 2/3/5/6, EUI-64 8/12/16), mode "
         "parameter lists 6/10 (4 pages), READ CAPACITY 10/16, GET LBA STATUS, REPORT LUNS, REPORT TARGET PORT GROUPS, REPORT PRIORITY, READ ELEMENT "
         "STATUS, TransportIDs. (a) canonical bytes b from the independent encoders: marshall(unmarshall(b)) == b; (b) unmarshall(marshall(d)) "
         "contains d for d = unmarshall(b); (c) for every field f of every fixed-layout structure and mode page and every alphabet value v: "
@@ -153,6 +153,8 @@ def rmw(codec, b, fields, offset, where_fn, tag, k):
 # ---------------------------------------------------------------------------------------------------------
 def run_case(case, obs=None):
     kind = case[0]
+    if kind == "subclass":
+        return run_subclass(case[1], case[2])
     if kind == "fixed":
         _, fmt, vals, do_rmw = case
         if fmt == "inquiry_std":
@@ -333,7 +335,7 @@ def replay(case):
 
 def partitions(tier):
     return [[n, c] for n in ("inquiry_std", "vpd86", "vpdb2", "vpdb3", "readcap", "mode6", "mode10", "vpd_lists", "vpd83", "getlbastatus", "reportluns", "rtpg",
-                          "reportpriority", "res", "tid") for c in range(NCHUNK)] + [["tool_swp", 0]]
+                          "reportpriority", "res", "tid") for c in range(NCHUNK)] + [["tool_swp", 0], ["subclass", 0]]
 
 
 def gen(part, tier):
@@ -404,8 +406,59 @@ def gen(part, tier):
 NCHUNK = 3
 
 
+def run_subclass(helper, idxs):
+    """a class derived from Inquiry that overrides one designator helper (delegating to the inherited code): parsing a Device
+    Identification page with the derived class and building it again goes through the override as often as the base class goes
+    through its own helper, and gives the same bytes"""
+    from vf import harness
+    Inquiry = c04.lib("Inquiry")
+    x = R.vpd_83([c04.DESIGNATORS[i] for i in idxs])
+    # how often does the base class use the helper for this page?
+    probe, base_calls = harness.override_probe(Inquiry, helper)
+    base_fn = getattr(Inquiry, helper).__func__
+    counted = [0]
+
+    def counting(klass, *a, **k):
+        counted[0] += 1
+        return base_fn(klass, *a, **k)
+    saved = Inquiry.__dict__[helper]
+    setattr(Inquiry, helper, classmethod(counting))
+    try:
+        ref = bytes(Inquiry.marshall_datain(Inquiry.unmarshall_datain(bytearray(x), evpd=1)))
+    finally:
+        setattr(Inquiry, helper, saved)
+    want_calls = counted[0]
+    try:
+        got = bytes(probe.marshall_datain(probe.unmarshall_datain(bytearray(x), evpd=1)))
+    except Exception as e:   # noqa: BLE001
+        return [("subclass/raises/%s" % helper, "a class derived from Inquiry overriding %s (delegating): parse + rebuild of a page with designators %r raised %s: %s" % (helper, idxs, type(e).__name__, e))]
+    out = []
+    if got != ref:
+        out.append(("subclass/bytes/%s" % helper, "a class derived from Inquiry overriding %s (delegating): rebuilt page differs from what Inquiry itself rebuilds" % helper))
+    if base_calls[0] != want_calls:
+        out.append(("subclass/override_bypassed/%s" % helper, "a class derived from Inquiry overriding %s: parse + rebuild of a page with designators %r went through the override %d times, "
+                    "Inquiry goes through its own helper %d times" % (helper, idxs, base_calls[0], want_calls)))
+    return out
+
+
 def run_partition(part, tier, seed):
     acc = Acc(seed)
+    if part[0] == "subclass":
+        combos = [[i] for i in range(len(c04.DESIGNATORS))] + [[0, 1], [5, 9], [8, 9, 12]]
+        for helper in ("marshall_designator", "unmarshall_designator", "marshall_designation_descriptor"):
+            for idxs in combos:
+                idxs = [i for i in idxs if i < len(c04.DESIGNATORS)]
+                case = ["subclass", helper, idxs]
+                acc.case(case, nontrivial=True, key=repr(case))
+                try:
+                    v = run_subclass(helper, idxs)
+                except Exception:
+                    import traceback
+                    v = [("harness_error", traceback.format_exc()[-600:])]
+                for k, w in v:
+                    acc.violation(k, w, case)
+                acc.outcome((repr(case), tuple(k for k, _ in v)))
+        return acc
     if part[0] == "tool_swp":
         fields, _ = R.MODE_PAGES[(0x0A, None)]
         for tr in ("sgio", "iscsi"):
